@@ -45,6 +45,8 @@ func c13Rle(bm []uint64) string {
 }
 
 // the loop a caller writes to visit the 1-bits of [i, end) in ascending order
+// (a walk that does not finish within 64*len+1 rounds - possible only with a broken NextOne - is cut
+// and marked with -2 instead of running into the watchdog)
 func c13IterNext(bm []uint64, i, end int32) []int32 {
 	out := []int32{}
 	for i < end {
@@ -53,6 +55,9 @@ func c13IterNext(bm []uint64, i, end int32) []int32 {
 			break
 		}
 		out = append(out, p)
+		if len(out) > 64*len(bm) {
+			return append(out, -2)
+		}
 		i = p + 1
 	}
 	return out
@@ -67,6 +72,9 @@ func c13IterPrev(bm []uint64, i, end int32) []int32 {
 			break
 		}
 		out = append(out, p)
+		if len(out) > 64*len(bm) {
+			return append(out, -2)
+		}
 		end = p
 	}
 	return out
